@@ -753,6 +753,16 @@ class RequestHandler:
                 "(should be lowercase)",
                 DeprecationWarning,
             )
+        # Serialize the cookie now: text that cannot be sent as a header
+        # (e.g. characters outside latin-1) must fail this call, not flush(),
+        # where it would abort the whole response including the error page.
+        try:
+            httputil.HTTPHeaders().add(
+                "Set-Cookie", self._convert_header_value(morsel.OutputString(None))
+            )
+        except (ValueError, httputil.HTTPInputError):
+            del self._new_cookie[name]
+            raise
 
     def clear_cookie(self, name: str, **kwargs: Any) -> None:
         """Deletes the cookie with the given name.
